@@ -13,7 +13,8 @@ so far) are walked, `id()` of every dict / list collected, and
       step's inputs, outputs and the store is compared with what the model answers for that
       position and value (driver commands `c07 flow`, `c07 proj`);
   (c) every argument is compared (deeply, key order included) with a deep copy taken before the
-      call — the only permitted change is the `_id` an insert adds;
+      call — the only permitted change is the `_id` an insert adds (a changed pipeline is the
+      known finding `agg-literal-alias` when it holds container constants);
 
 then every object handed over in that step is SCRIBBLED on (marker key in every dict, marker
 appended to every list) and the collection re-read through `find({})` and through the raw
@@ -68,9 +69,10 @@ MODEL_OPS = {
     'foad': ['find_one_and_delete', 'find_one_and_projected'],
     'distinct': ['distinct'], 'aggregate': ['aggregate'],
 }
-FINDING_OF_POS = {'projId': 'proj-id-alias', 'projOpStored': 'proj-op-alias',
-                  'insertedId': 'result-id-alias', 'upsertedId': 'result-id-alias',
-                  'aggLiteral': 'agg-literal-alias', 'cursorCache': 'cursor-cache-alias'}
+# positions at which the model says the code does not copy -> the known finding that lists it
+# (proj-id-alias, proj-op-alias, result-id-alias, proj-arg-mutated were fixed by 5ac4c3c: a
+# recurrence is a VIOLATION)
+FINDING_OF_POS = {'aggLiteral': 'agg-literal-alias', 'cursorCache': 'cursor-cache-alias'}
 MARK = '__c07_scribble__'
 
 
@@ -444,19 +446,6 @@ class HistoryRun(object):
                     ok = False
                 if ok:
                     continue
-            if role == 'projection' and isinstance(obj, dict) and isinstance(before, dict):
-                # `_id` and the operator fields are popped and (unless the call raised) put back at
-                # the end; `_id: 1` is put "back" even when it was not there
-                lost = [k for k in before if k not in obj]
-                gained = [k for k in obj if k not in before]
-                common = all(same(obj[k], before[k]) for k in obj if k in before)
-                poppable = all(k == '_id' or isinstance(before[k], dict) for k in lost)
-                if common and poppable and all(k == '_id' for k in gained) and (
-                        not lost or c.exc is not None):
-                    self.events.append(('proj-arg-mutated', c.i, {
-                        'before': pretty(before), 'after': pretty(obj),
-                        'raised': type(c.exc).__name__ if c.exc is not None else None}))
-                    continue
             if role == 'pipeline' and pipeline_literals(before):
                 # a constant of the pipeline is used as a live object: a later $addFields on a
                 # nested path writes into it
@@ -558,9 +547,18 @@ class HistoryRun(object):
             rids = set()
             for d in docs:
                 rids |= idset(d)
+            nstages = len(c.args[0][1]) if isinstance(c.args[0][1], list) else 0
             for lit, p in pipeline_literals(c.args[0][1]):
-                if idset(lit) & rids:
-                    self.inst(c, 'aggLiteral', lit, True, detail=path_str(p))
+                hit = bool(idset(lit) & rids)
+                # a constant of the LAST stage reaches every output document: there the model's
+                # "not copied" is checked both ways; earlier stages may be overwritten / dropped
+                last = bool(docs) and p[0] == nstages - 1 and '.' not in str(p[2])
+                if last:
+                    body = c.args[0][1][p[0]][p[1]]
+                    last = not any(f != p[2] and f.split('.')[0] == p[2] for f in body)
+                if hit or last:
+                    self.inst(c, 'aggLiteral', lit, hit, exact=last, detail=path_str(p))
+                if hit:
                     self.stats['agg literal shared with the output'] += 1
         # ---- anything aliased that no position accounts for
         for x, (where, p) in aliased.items():
@@ -997,34 +995,6 @@ def replay_finding(ctx, entry):
 def consequence(name):
     """the harm of each finding, stated without the harness machinery"""
     c = mongomock.MongoClient().db.c
-    if name == 'proj-id-alias':
-        c.insert_one({'_id': {'k': 1}, 'a': 1})
-        r = c.find_one({}, {'a': 1})
-        r['_id']['k'] = 'changed by the caller'
-        return c.find_one({})['_id'] != {'k': 1}
-    if name == 'proj-op-alias':
-        c.insert_one({'_id': 1, 'a': [{'x': 1}, {'x': 2}]})
-        r = c.find_one({}, {'a': {'$slice': 1}})
-        r['a'][0]['x'] = 'changed by the caller'
-        r2 = c.find_one({}, {'a': {'$elemMatch': {'x': 2}}})
-        r2['a'][0]['x'] = 'changed by the caller'
-        return c.find_one({})['a'] != [{'x': 1}, {'x': 2}]
-    if name == 'result-id-alias':
-        r = c.insert_one({'_id': {'k': 1}, 'a': 1})
-        r.inserted_id['k'] = 'changed by the caller'
-        u = c.update_one({'_id': {'k': 2}}, {'$set': {'a': 2}}, upsert=True)
-        u.upserted_id['k'] = 'changed by the caller'
-        return [d['_id'] for d in c.find({})] != [{'k': 1}, {'k': 2}]
-    if name == 'proj-arg-mutated':
-        c.insert_one({'_id': 1, 'a': 5})
-        p = {'a': {'$slice': 1}, '_id': 1}
-        try:
-            list(c.find({}, p))
-        except Exception:  # pylint: disable=broad-except
-            pass
-        q = {'a': 1}
-        list(c.find({}, q))
-        return p != {'a': {'$slice': 1}, '_id': 1} or q != {'a': 1}
     if name == 'agg-literal-alias':
         c.insert_many([{'_id': 1}, {'_id': 2}])
         p = [{'$addFields': {'q': {'$literal': {'z': 1}}}}]
